@@ -74,7 +74,7 @@ def xConvDecimal (v : PyVal) : R Q :=
     | none => .error .typeErr
 
 /-- `DecimalNumber.__set__`: convert, then the Number checks on the Decimal -/
-def vDecimal (o : NumOpts) (v : PyVal) : R PyVal :=
+def sxDecimal (o : NumOpts) (v : PyVal) : R PyVal :=
   bindE (xConvDecimal v) fun q => if numOk o q then .ok (.dec q) else .error .valueErr
 
 /-- `DecimalNumber.deserialize`: convert only (the bounds are the constructor's business) -/
@@ -165,7 +165,7 @@ mutual
 /-- `field.__set__(fresh_instance, v)` -/
 def validateX (XO : XOracles) : XDecl → PyVal → R PyVal
   | .base f, v => validate XO.base f v
-  | .decimal o, v => vDecimal o v
+  | .decimal o, v => sxDecimal o v
   | .enumVal cls ms mx, v => vEnumVal cls ms mx v
   | .temporal ty fmt ints, v => vTemporal XO ty fmt ints v
   | .opt x, v => xOptOf (validateX XO x v) v
